@@ -20,7 +20,7 @@ RULE = ("agent parameter grids x market states (price histories built by real tr
 WIT = ["fcn_buy", "fcn_sell", "fcn_nothing", "fcn_inaccessible", "fcn_clock_below_window", "fcn_mean_reversion_distinct",
        "share_choice_0", "share_choice_1", "share_zero_volume", "mm_quotes", "mm_base_from_market_price", "mm_inaccessible_market_ignored",
        "mm_market_order_on_top", "arb_no_action_within_threshold", "arb_gap_exactly_threshold", "arb_buy_index", "arb_sell_index",
-       "arb_not_running", "well_formed_orders"]
+       "arb_not_running", "arb_two_indices_acted", "well_formed_orders"]
 
 
 class Sim:
@@ -371,7 +371,51 @@ def arb_fn(case, wit):
     return ("buy" if io[0].is_buy else "sell", ncomp)
 
 
-GRIDS = {"fcn_long_lived_agent": fcn_persistent_fn, "fcn": fcn_fn, "market_share_fcn": share_fn, "market_maker": mm_fn, "arbitrage": arb_fn}
+def arb2_cases(tier):
+    for p2 in (99, 100, 103):          # price of the 2-component index (components 100, 102 -> computed 101)
+        for p3 in (97, 101, 104):      # price of the 3-component index (components 100, 102, 98 -> computed 100)
+            for v in (1, 3):
+                for order in ("idx2_first", "idx3_first"):
+                    for repeat in (1, 2):
+                        yield (p2, p3, v, order, repeat)
+
+
+def arb2_fn(case, wit):
+    """one long-lived arbitrage agent with access to TWO index markets of different sizes (n = 2 and n = 3)"""
+    p2, p3, v, order, repeat = case
+    sim = Sim()
+    comps = [mk_quote_market(sim, i, 100, "none", tr=p) for i, p in enumerate((100, 102, 98))]
+    idxs = []
+    for mid, (names, ip) in enumerate(((["m0", "m1"], p2), (["m0", "m1", "m2"], p3)), start=3):
+        idx = IndexMarket(mid, None, sim, "idx%d" % mid)
+        idx.setup({"tickSize": 0.125, "marketPrice": 100.0, "markets": names})
+        idx._is_running = True
+        idx._update_time(100.0)
+        trade(idx, mid, ip)
+        sim.name2market[idx.name] = idx
+        sim.id2market[mid] = idx
+        idxs.append(idx)
+    a = ArbitrageAgent(7, random.Random(0), sim, "arb")
+    a.setup({"cashAmount": 1, "assetVolume": 1, "orderVolume": v, "orderThresholdPrice": 0.5, "orderTimeLength": 2}, [0, 1, 2, 3, 4])
+    markets = comps + (idxs if order == "idx2_first" else idxs[::-1])
+    for _ in range(repeat):
+        orders = a.submit_orders(markets)
+        for o in orders:
+            well_formed(o, a, wit)
+        for idx, ncomp, ci, ip in ((idxs[0], 2, 101.0, p2), (idxs[1], 3, 100.0, p3)):
+            io = [o for o in orders if o.market_id == idx.market_id]
+            if abs(ip - ci) <= 0.5:
+                if io:
+                    raise Violation("C20.arb_acts", "an arbitrage agent acted although the gap does not exceed its threshold", "%r index %s" % (case, idx.name))
+                continue
+            if len(io) != 1 or io[0].volume != ncomp * v or io[0].is_buy != (ip < ci):
+                raise Violation("C20.arb_index_leg", "the index leg is not n x v, buying iff the index price is below the computed index",
+                                "%r: index with %d components, v=%d -> %r" % (case, ncomp, v, io))
+            wit.inc("arb_two_indices_acted")
+    return (p2 != 101, p3 != 100, order)
+
+
+GRIDS = {"arbitrage_two_indices": arb2_fn, "fcn_long_lived_agent": fcn_persistent_fn, "fcn": fcn_fn, "market_share_fcn": share_fn, "market_maker": mm_fn, "arbitrage": arb_fn}
 
 
 def run(tier, seed):
@@ -381,6 +425,7 @@ def run(tier, seed):
     run_grid(res, "market_share_fcn", list(share_cases(tier)), share_fn, seed)
     run_grid(res, "market_maker", list(mm_cases(tier)), mm_fn, seed)
     run_grid(res, "arbitrage", list(arb_cases(tier)), arb_fn, seed)
+    run_grid(res, "arbitrage_two_indices", list(arb2_cases(tier)), arb2_fn, seed)
     cov = res.coverage
     cov["evaluations"] += cov["witness_classes"].get("fcn_cases", 0) + cov["witness_classes"].get("fcn_persistent_cases", 0)
     cov["grids"]["fcn"]["inner_cases_per_market_state"] = len(WEIGHTS) * len(INNER)
